@@ -107,6 +107,48 @@ class _Tx(ast.NodeTransformer):
             return ast.copy_location(new, node)
         return node
 
+    @staticmethod
+    def _simple(n):
+        return isinstance(n, (ast.Name, ast.Constant)) or (isinstance(n, ast.Attribute) and _Tx._simple(n.value)) or \
+            (isinstance(n, ast.Subscript) and _Tx._simple(n.value) and not isinstance(n.slice, ast.Slice) and _Tx._simple(n.slice)) or \
+            (isinstance(n, ast.Call) and isinstance(n.func, ast.Name) and n.func.id in ('_zx_gi_',) and all(_Tx._simple(a) for a in n.args))
+
+    def visit_Assign(self, node):
+        if len(node.targets) == 1 and isinstance(node.targets[0], ast.Subscript) and not isinstance(node.targets[0].slice, ast.Slice):
+            t = node.targets[0]
+            obj, idx, val = self.visit(t.value), self.visit(t.slice), self.visit(node.value)
+            call = ast.Call(func=ast.Name(id='_zx_si_', ctx=ast.Load()), args=[obj, idx, val], keywords=[])
+            return ast.copy_location(ast.Expr(value=call), node)
+        self.generic_visit(node)
+        return node
+
+    def visit_AugAssign(self, node):
+        t = node.target
+        if isinstance(t, ast.Subscript) and not isinstance(t.slice, ast.Slice) and self._simple(t.value) and self._simple(t.slice):
+            import copy as _copy
+            obj, idx = self.visit(_copy.deepcopy(t.value)), self.visit(_copy.deepcopy(t.slice))
+            for n in ast.walk(obj):
+                if hasattr(n, 'ctx'):
+                    n.ctx = ast.Load()
+            for n in ast.walk(idx):
+                if hasattr(n, 'ctx'):
+                    n.ctx = ast.Load()
+            cur_ = ast.Call(func=ast.Name(id='_zx_gi_', ctx=ast.Load()), args=[_copy.deepcopy(obj), _copy.deepcopy(idx)], keywords=[])
+            newv = self.visit_BinOp(ast.BinOp(left=cur_, op=node.op, right=self.visit(node.value))) if isinstance(node.op, ast.Mod) else \
+                ast.BinOp(left=cur_, op=node.op, right=self.visit(node.value))
+            call = ast.Call(func=ast.Name(id='_zx_si_', ctx=ast.Load()), args=[obj, idx, newv], keywords=[])
+            return ast.copy_location(ast.Expr(value=call), node)
+        self.generic_visit(node)
+        return node
+
+    def visit_Delete(self, node):
+        if len(node.targets) == 1 and isinstance(node.targets[0], ast.Subscript) and not isinstance(node.targets[0].slice, ast.Slice):
+            t = node.targets[0]
+            call = ast.Call(func=ast.Name(id='_zx_di_', ctx=ast.Load()), args=[self.visit(t.value), self.visit(t.slice)], keywords=[])
+            return ast.copy_location(ast.Expr(value=call), node)
+        self.generic_visit(node)
+        return node
+
     def visit_BinOp(self, node):
         self.generic_visit(node)
         if isinstance(node.op, ast.Mod):
@@ -136,12 +178,31 @@ def zx_cm(obj, name, *a, **k):
             if a and any(type(x) in (SBytes, SInt, SBool) for x in a):
                 return getattr(SBytes(list(obj)), name)(*a, **k)
     elif t is dict:
-        if a and type(a[0]) in (SStr, SBytes, SInt):
+        if a and (type(a[0]) in (SStr, SBytes, SInt) or (_tainted(obj) and name in ('get', 'pop', 'setdefault'))):
             if name == 'get':
                 for kk in obj:
                     if _dec_eq(kk, a[0]):
-                        return obj[kk]
+                        HASH_OK[0] = True
+                        try:
+                            return dict.__getitem__(obj, kk)
+                        finally:
+                            HASH_OK[0] = False
                 return a[1] if len(a) > 1 else None
+            if name == 'setdefault':
+                for kk in obj:
+                    if _dec_eq(kk, a[0]):
+                        return zx_gi(obj, kk)
+                zx_si(obj, a[0], a[1] if len(a) > 1 else None)
+                return a[1] if len(a) > 1 else None
+            if name == 'pop':
+                for kk in list(obj):
+                    if _dec_eq(kk, a[0]):
+                        v = zx_gi(obj, kk)
+                        zx_di(obj, kk)
+                        return v
+                if len(a) > 1:
+                    return a[1]
+                raise KeyError(a[0])
             raise ZXError('dict.%s with symbolic key' % name)
     elif t is list:
         if name == 'remove' and a and is_sym(a[0]):
@@ -150,10 +211,79 @@ def zx_cm(obj, name, *a, **k):
                     del obj[i]
                     return None
             raise ValueError('list.remove(x): x not in list')
-    elif t is set or t is frozenset:
+    elif t is set:
+        if a and (is_sym(a[0]) or _tainted(obj)) and name in ('add', 'discard', 'remove'):
+            hit = None
+            for kk in list(obj):
+                if _dec_eq(kk, a[0]):
+                    hit = kk
+                    break
+            HASH_OK[0] = True
+            try:
+                if name == 'add':
+                    if hit is None:
+                        set.add(obj, a[0])
+                        if is_sym(a[0]):
+                            _taint(obj)
+                    return None
+                if hit is None:
+                    if name == 'remove':
+                        raise KeyError(a[0])
+                    return None
+                set.discard(obj, hit)
+                return None
+            finally:
+                HASH_OK[0] = False
         if a and is_sym(a[0]):
             raise ZXError('set.%s with symbolic element' % name)
     return getattr(obj, name)(*a, **k)
+
+
+HASH_OK = [False]
+_TAINT = {}      # id(container) -> container (kept alive so that ids are not reused)
+
+
+def _tainted(c):
+    return id(c) in _TAINT
+
+
+def _taint(c):
+    _TAINT[id(c)] = c
+
+
+def reset_taint():
+    _TAINT.clear()
+
+
+def zx_si(obj, idx, val):
+    if type(obj) is dict and (is_sym(idx) or _tainted(obj)):
+        for kk in list(obj):
+            if _dec_eq(kk, idx):
+                dict.__setitem__(obj, kk, val)
+                return
+        HASH_OK[0] = True
+        try:
+            dict.__setitem__(obj, idx, val)
+        finally:
+            HASH_OK[0] = False
+        if is_sym(idx):
+            _taint(obj)
+        return
+    obj[idx] = val
+
+
+def zx_di(obj, idx):
+    if type(obj) is dict and (is_sym(idx) or _tainted(obj)):
+        for kk in list(obj):
+            if _dec_eq(kk, idx):
+                HASH_OK[0] = True
+                try:
+                    dict.__delitem__(obj, kk)
+                finally:
+                    HASH_OK[0] = False
+                return
+        raise KeyError(idx)
+    del obj[idx]
 
 
 def _dec_eq(a, b):
@@ -163,7 +293,7 @@ def _dec_eq(a, b):
 
 def zx_in(item, cont):
     tc = type(cont)
-    if is_sym(item):
+    if is_sym(item) or (tc in (dict, set) and _tainted(cont)):
         if tc in (dict, set, frozenset) or isinstance(cont, (type({}.keys()), type({}.values()))):
             for kk in cont:
                 if _dec_eq(kk, item):
@@ -184,10 +314,14 @@ def zx_gi(obj, idx):
     ti = type(idx)
     to = type(obj)
     if to is dict:
-        if ti in (SStr, SBytes, SInt):
+        if ti in (SStr, SBytes, SInt) or _tainted(obj):
             for kk in obj:
                 if _dec_eq(kk, idx):
-                    return obj[kk]
+                    HASH_OK[0] = True
+                    try:
+                        return dict.__getitem__(obj, kk)
+                    finally:
+                        HASH_OK[0] = False
             raise KeyError(idx)
         return obj[idx]
     if ti is slice and (type(idx.start) is SInt or type(idx.stop) is SInt) and to in (bytes, str, list, tuple, bytearray):
@@ -223,7 +357,7 @@ def zx_mod(a, b):
     return a % b
 
 
-RUNTIME = {'_zx_cm_': zx_cm, '_zx_in_': zx_in, '_zx_not_': zx_not, '_zx_gi_': zx_gi, '_zx_mod_': zx_mod}
+RUNTIME = {'_zx_cm_': zx_cm, '_zx_in_': zx_in, '_zx_not_': zx_not, '_zx_gi_': zx_gi, '_zx_mod_': zx_mod, '_zx_si_': zx_si, '_zx_di_': zx_di}
 
 
 # ------------------------------------------------------------------ loader
